@@ -203,7 +203,9 @@ ADeser(M, T, d) ==
     [] T.k = "str"   -> IF d.k = "str" THEN ArgOk(d) ELSE ArgErr
     [] IsIdType(T)   -> IF d.k = "str" THEN ArgOk(d) ELSE ArgErr
     [] T.k = "bool"  -> IF d.k = "bool" THEN ArgOk(d) ELSE ArgErr
-    [] T.k = "enum"  -> IF d.k = "ename" /\ d.m \in M.enums[T.n] THEN ArgOk(VEnum(T.n, d.m)) ELSE ArgErr
+    \* every NAME of the enum is a GraphQL value, alias names included (two names of one member): they denote the member
+    [] T.k = "enum"  -> IF d.k = "ename" /\ d.m \in M.enums[T.n]
+                        THEN ArgOk(VEnum(T.n, IF d.m \in DOMAIN M.ealias THEN M.ealias[d.m] ELSE d.m)) ELSE ArgErr
     [] T.k = "lit"   -> IF d.k = "ename" /\ d.m \in {"x", "y"} THEN ArgOk(DStr(d.m)) ELSE ArgErr
     [] T.k = "opt"   -> IF d.k = "null" THEN ArgOk(DNull) ELSE ADeser(M, T.e, d)
     [] T.k = "und"   -> IF d.k = "null" THEN ArgErr ELSE ADeser(M, T.e, d)     \* null is not Undefined for deserialize
